@@ -20,6 +20,21 @@ PATS = {
     r'[a-c]+': ['abc', 'ca', 'b'],
 }
 
+# patterns whose single capturing group may take no part in a successful match: the documented value is what
+# re.findall() gives — '' for such a group.  (Several groups: the docs promise a tuple, TatSu returns the first
+# group; the properties say nothing about it, so such patterns are not generated — DESIGN.md 8.10.)
+GROUP_PATS = {
+    '(a)?b': ['b', 'ab'],
+    '(c)|a': ['a', 'c'],
+    '(?:(a)b)?c': ['c', 'abc'],
+    '(b)?a': ['a', 'ba'],
+    'c|(b)': ['c', 'b'],
+    '(?P<x>b)?a': ['a', 'ba'],
+}
+
+# token texts at the edge of what the name guard looks at: underscores, digits, non-ASCII letters, punctuation inside
+WIDE_TOKS = ['a_', '_a', 'a_b', 'ab', 'a1', '1a', 'if', 'b_', 'c-', 'a-b', '\u00e9', 'a\u00e9', '_', '__', 'b2b', '-', '+']
+
 FEATURES = dict(names=True, over=True, la=True, join=True, skipto=True, const=True,
                 void=True, dot=True, cut=False, skipgroup=True, empty=True, fail=True, eof=True,
                 recursion=False)
@@ -29,11 +44,12 @@ CONSTS = ['5', 'zq', "'s'", '1.5']
 
 def gen_exp(rng, depth, rules, F, pats=None):
     pats = pats or list(PATS)[:4]
+    toks = F.get('toks') or TOKS
 
     def leaf():
         r = rng.random()
         if r < 0.45:
-            return Tok(rng.choice(TOKS))
+            return Tok(rng.choice(toks))
         if r < 0.6:
             return Pat(rng.choice(pats))
         if r < 0.85 and rules:
@@ -50,7 +66,7 @@ def gen_exp(rng, depth, rules, F, pats=None):
             return EOF()
         if r < 0.965 and F['fail']:
             return Fail()
-        return Tok(rng.choice(TOKS))
+        return Tok(rng.choice(toks))
 
     if depth <= 0:
         return leaf()
@@ -73,9 +89,10 @@ def gen_exp(rng, depth, rules, F, pats=None):
     if r < 0.70:
         return (Clo if rng.random() < .5 else PClo)(sub())
     if r < 0.74 and F['join']:
+        sep = Tok(rng.choice(F['seps'])) if F.get('seps') else Tok(',')
         if F.get('assoc') and rng.random() < .3:
-            return Join(Tok(','), sub(), True, False, rng.choice(['left', 'right']))
-        return Join(Tok(','), sub(), rng.random() < .5, rng.random() < .5)
+            return Join(sep, sub(), True, False, rng.choice(['left', 'right']))
+        return Join(sep, sub(), rng.random() < .5, rng.random() < .5)
     if r < 0.78 and F['la']:
         return (LA if rng.random() < .5 else NLA)(sub())
     if r < 0.84 and F['names']:
@@ -117,7 +134,7 @@ def derive(rng, g: Grammar, e, depth=0):
     if isinstance(e, Tok):
         return e.s
     if isinstance(e, Pat):
-        return rng.choice(PATS.get(e.rx, ['a']))
+        return rng.choice(PATS.get(e.rx) or GROUP_PATS.get(e.rx) or ['a'])
     if isinstance(e, Call):
         try:
             return derive(rng, g, g.rule(e.name).body, d)
